@@ -31,7 +31,11 @@ pub(crate) use utils::*;
 mod csc;
 pub use csc::*;
 
+#[cfg(not(oxfordcontrol_clarabel_rs_verif))]
 mod densesym3x3;
+#[cfg(oxfordcontrol_clarabel_rs_verif)]
+#[allow(missing_docs)]
+pub mod densesym3x3;
 pub(crate) use densesym3x3::*;
 
 #[cfg(feature = "sdp")]
